@@ -177,6 +177,18 @@ TABLE = {
             "Decides the error discipline, not the absence of exceptions from partial builtins on runtime values, user UOD "
             "callbacks, or RecursionError on deep programs; hardware-layer implementations are exempt by the property's "
             "assumption (hardware answers in its declared domain)."),
+    "C15": ("ownership/append-only rules for record states and their clock, must-pass-through for the sort, id ownership dataflow, "
+            "and a finite path enumeration of the run-log state loop per record-state enum member",
+            "Record states are appended only by RuntimeRecord._add_state, called only from Tracking with Tracking's tick "
+            "time (written only by Tracking.tick from its parameter); item.start comes from the first state and item.end from "
+            "a later state of the same invocation with the raising order check dominating the loop; every return path of "
+            "get_runlog sorts by start; item ids are instance ids that are minted once (uuid4), grouped by id and owned by the "
+            "record they are added to; for each of the 10 record-state enum members all paths of the loop body are enumerated "
+            "with the enum-dependent tests decided: conclusive states set the matching item state, the end time, "
+            "cancellable=forcible=False last, and append the item; the exclusion table equals the property's list; every "
+            "visitor pairs node.completed = True with tracking.mark_completed. All are facts over every record history.",
+            "Decides these structural clauses; producibility for arbitrary runtime state orders (the raise sites of the "
+            "generator) and monotonicity of the clock itself are not decided."),
     "C01": ("state-carriage completeness, self-lookup rule, origin-token (alias) propagation and validate-before-commit dominance",
             "Every runtime attribute the interpreter layer writes on AST nodes must be carried by extract_state/apply_state of "
             "its declaring class; lookups of a node id that may be the receiver's own must pass include_self=True; symbolic "
